@@ -179,6 +179,25 @@ def tlc_mc(module, cfg, workers=8, xmx="8g", timeout=3600, expect_violation=None
     return res
 
 
+def tlapm(module, timeout=1800, threads=8):
+    """check the proofs of spec/proofs/<module> with the TLA+ proof system (SMT back end); every obligation
+    must be proved.  The modules they are about are taken from spec/ itself (-I ..)."""
+    cache = "%s/tlacache_%d" % (OUT, os.getpid())
+    t0 = time.time()
+    try:
+        p = subprocess.run(["tlapm", "-I", "..", "--cache-dir", cache, "--threads", str(threads), module],
+                           cwd=SPEC + "/proofs", stdout=subprocess.PIPE, stderr=subprocess.STDOUT, text=True, timeout=timeout)
+    except subprocess.TimeoutExpired:
+        shutil.rmtree(cache, ignore_errors=True)
+        raise ToolError("tlapm timed out: %s" % module)
+    shutil.rmtree(cache, ignore_errors=True)
+    m = re.search(r'All (\d+) obligations? proved', p.stdout)
+    if not m:
+        raise ToolError("proofs of %s were not all accepted (the specification itself, independent of /repo):\n%s"
+                        % (module, "\n".join(l for l in p.stdout.splitlines() if not l.startswith(("Called from", "Raised")))[-3000:]))
+    return {"module": module, "obligations": int(m.group(1)), "wall": round(time.time() - t0, 1)}
+
+
 def run_bfs(exe, spec, workdir, max_states, per_file):
     """breadth-first exploration of the real state graph; returns ([(trace, specpath)...], info)"""
     sp = workdir + "/spec.bfs.json"
